@@ -18,7 +18,7 @@ for d in glob.glob(root + '/C*-*'):
         for l in open(f):
             m = re.match(r'\s*(C\d\d) exit=1 violations=\d+ oracle=(\S*)', l)
             if m: note(seed, m.group(1), m.group(2), first=True)
-for log in ['r2quick.log', 'r3quick.log', 'r4quick.log']:
+for log in ['r2quick.log', 'r3quick.log', 'r4quick.log', 'r5quick.log']:
     p = root + '/' + log
     if not os.path.exists(p): continue
     cur = None
